@@ -15,6 +15,13 @@ fn main() {
         _ => Tier::Quick,
     };
     let mut replay = None;
+    if id == "C14-DIGEST" {
+        let n: usize = args.get(2).and_then(|s| s.parse().ok()).unwrap_or(100);
+        let seed = std::env::var("VERIF_SEED").ok().and_then(|s| s.trim().parse::<i128>().ok()).map(|v| v as u64).unwrap_or(20260921);
+        let ctx = CheckCtx { property: "C14".into(), tier: Tier::Quick, seed, replay: None, threads: 1, scale: 1.0 };
+        tfv::engine::install_panic_hook();
+        std::process::exit(checks::misc::c14_emit(&ctx, n));
+    }
     let mut i = 2;
     while i < args.len() {
         match args[i].as_str() {
@@ -43,6 +50,13 @@ fn main() {
         "C03" => checks::adapters::c03(&ctx),
         "C05" => checks::adapters::c05(&ctx),
         "C21" => checks::adapters::c21(&ctx),
+        "C10" => checks::frontend::c10(&ctx),
+        "C11" => checks::ir::c11(&ctx),
+        "C13" => checks::ir::c13(&ctx),
+        "C12" => checks::misc::c12(&ctx),
+        "C14" => checks::misc::c14(&ctx),
+        "C15" => checks::misc::c15(&ctx),
+        "C19" => checks::schema::c19(&ctx),
         _ => {
             eprintln!("unknown property {id}");
             2
